@@ -831,3 +831,141 @@ Proof.
   exists ex_doc. split; [exact wf_doc_example|]. split; [repeat constructor|].
   intros H. vm_compute in H. discriminate H.
 Qed.
+
+(* ------------------------------------------------------------------------------------------------
+   generation 1 = generation 2 in the static-id mode: the writer's bytes do not change when the document is replaced by
+   what the reader gets back from them *)
+Section G12.
+  Variable d : doc.
+  Hypothesis W : wf_doc d.
+  Hypothesis Htrim : fx_trimmed d.
+
+  Let objs := d_objects d.
+  Let rho := fx_ren d.
+  Let Wd := written (graph_of d) (roots_of d).
+  Let d1 := fx_norm d.
+  Let objs1 := map (fx_norm_obj d) Wd.
+  Let ren1 := fx_ren d1.
+  Let Hc : closed (graph_of d) (roots_of d) := wfd_closed d W.
+  Local Notation US := wm_unparse_string.
+  Local Notation UN := wm_unparse_name.
+
+  Lemma g12_written : written (graph_of d1) (roots_of d1) = map rho Wd.
+  Proof.
+    unfold d1. rewrite (fxs_written1 d W Htrim). unfold fx_ids_1n. symmetry. exact (map_f_written _ _ Hc).
+  Qed.
+
+  Lemma g12_ren1 : forall id, In id Wd -> ren1 (rho id) = rho id.
+  Proof.
+    intros id Hin. unfold ren1.
+    apply (fx_ren_identity d1 (length Wd) (fxs_closed1 d W Htrim) (fxs_written1 d W Htrim)).
+    rewrite g12_written. apply in_map. exact Hin.
+  Qed.
+
+  Lemma g12_unparse : forall o, (forall id, In id (refs_of objs o) -> In id Wd) ->
+    unparse US UN objs1 ren1 (fx_rn objs rho o) = unparse US UN objs rho o.
+  Proof.
+    apply (obj_ind' (fun o => (forall id, In id (refs_of objs o) -> In id Wd) ->
+      unparse US UN objs1 ren1 (fx_rn objs rho o) = unparse US UN objs rho o)); try (intros; reflexivity).
+    - intros id Hr. cbn [fx_rn unparse]. rewrite g12_ren1; [reflexivity | apply Hr; left; reflexivity].
+    - intros l IH Hr. cbn [fx_rn unparse]. f_equal. f_equal. cbn [refs_of] in Hr.
+      induction IH as [|x l Hx _ IHl]; [reflexivity|]. cbn [flat_map] in Hr. cbn [map flat_map].
+      rewrite Hx by (intros id Hid; apply Hr; apply in_or_app; left; exact Hid).
+      rewrite IHl by (intros id Hid; apply Hr; apply in_or_app; right; exact Hid). reflexivity.
+    - intros dd IH Hr. rewrite fx_rn_dict. cbn [unparse]. f_equal. f_equal. cbn [refs_of] in Hr.
+      induction IH as [|kv dd Hkv _ IHd]; [reflexivity|]. cbn [flat_map] in Hr. cbn [flat_map]. rewrite flat_map_app.
+      rewrite IHd by (intros id Hid; apply Hr; apply in_or_app; right; exact Hid). f_equal.
+      unfold fx_rn_entry. destruct (is_null_val objs (snd kv)) eqn:En; [reflexivity|].
+      cbn [flat_map fst snd]. rewrite app_nil_r.
+      assert (Hnn : is_null_val objs1 (fx_rn objs rho (snd kv)) = false)
+        by (apply (fxs_nonnull1 d W (snd kv) En); intros id Hid; apply Hr; apply in_or_app; left; rewrite Hid; left; reflexivity).
+      rewrite Hnn.
+      rewrite Hkv by (intros id Hid; apply Hr; apply in_or_app; left; exact Hid). reflexivity.
+  Qed.
+
+  Lemma g12_object : forall id i, In id Wd -> find_obj objs id = Some i ->
+    emit_object US UN objs1 ren1 (rho id) {| i_val := fx_norm_val d i; i_stream := i_stream i |}
+    = emit_object US UN objs rho (rho id) i.
+  Proof.
+    intros id i Hin Hi. unfold emit_object. cbn [i_stream i_val]. f_equal.
+    pose proof (fxs_obj_refs d W id i Hin Hi) as Hr.
+    destruct (i_stream i) as [data|] eqn:Es.
+    - destruct (wfd_streams d W id i (fxs_find_in _ _ _ Hi)) as [dd Hv]; [rewrite Es; discriminate|].
+      destruct (fxs_stream_val d i data dd Es Hv) as [H1 [_ [_ H4]]].
+      pose proof (g12_unparse _ Hr) as HU. fold objs rho in H1. rewrite H1 in HU.
+      unfold unparse_stream_dict. rewrite H4. rewrite Hv in HU |- *. cbn [drop_length] in HU |- *.
+      cbn [unparse] in HU. apply app_inv_head in HU. apply app_inv_tail in HU. rewrite HU. reflexivity.
+    - unfold fx_norm_val. rewrite Es. fold objs rho. rewrite (g12_unparse _ Hr). reflexivity.
+  Qed.
+
+  Lemma g12_bodies : forall ids pos cr ofs, (forall id, In id ids -> In id Wd) ->
+    emit_bodies US UN objs1 ren1 (map rho ids) pos cr ofs = emit_bodies US UN objs rho ids pos cr ofs.
+  Proof.
+    induction ids as [|id ids IH]; intros pos cr ofs Hl; [reflexivity|].
+    assert (Hin : In id Wd) by (apply Hl; left; reflexivity).
+    cbn [map emit_bodies].
+    assert (Hf1 : find_obj objs1 (rho id) = Some (snd (fx_norm_obj d id))) by exact (fxs_find1 d W id Hin).
+    rewrite Hf1, (g12_ren1 id Hin).
+    destruct (written_find_obj d id Hc Hin) as [i Hi]. unfold fx_norm_obj. cbn [snd]. fold objs in Hi |- *. rewrite Hi.
+    rewrite (g12_object id i Hin Hi). apply IH. intros x Hx. apply Hl. right. exact Hx.
+  Qed.
+
+  Lemma g12_trailer : forall l, (forall kv, In kv l -> In kv (d_trailer d)) ->
+    flat_map (fun kv => if is_null_val objs1 (snd kv) then [] else
+                        sp ++ UN (fst kv) ++ sp ++
+                        (if beqb (fst kv) k_Size then dec_of_N (N.of_nat (length Wd) + 1) else unparse US UN objs1 ren1 (snd kv)))
+             (flat_map (fx_norm_entry d) l)
+    = flat_map (fun kv => if is_null_val objs (snd kv) then [] else
+                          sp ++ UN (fst kv) ++ sp ++
+                          (if beqb (fst kv) k_Size then dec_of_N (N.of_nat (length Wd) + 1) else unparse US UN objs rho (snd kv))) l.
+  Proof.
+    induction l as [|kv l IH]; intros Hl; [reflexivity|].
+    cbn [flat_map]. rewrite flat_map_app. rewrite IH by (intros x Hx; apply Hl; right; exact Hx). f_equal.
+    assert (Hkv : In kv (d_trailer d)) by (apply Hl; left; reflexivity).
+    unfold fx_norm_entry. fold objs. pose proof Htrim as Ht. unfold fx_trimmed in Ht. rewrite Forall_forall in Ht.
+    rewrite (Ht kv Hkv), orb_false_r.
+    destruct (is_null_val objs (snd kv)) eqn:En; [reflexivity|].
+    cbn [flat_map fst snd]. rewrite app_nil_r.
+    destruct (beqb (fst kv) k_Size) eqn:Es; [reflexivity|]. fold rho.
+    assert (Hr : forall y, In y (refs_of objs (snd kv)) -> In y Wd)
+      by (intros y Hy; exact (fxs_trailer_refs_written d W kv y Hkv En Hy)).
+    assert (Hnn : is_null_val objs1 (fx_rn objs rho (snd kv)) = false)
+      by (apply (fxs_nonnull1 d W (snd kv) En); intros id Hid; apply Hr; rewrite Hid; left; reflexivity).
+    rewrite Hnn, (g12_unparse _ Hr). reflexivity.
+  Qed.
+
+  Lemma g12_write : d_id2 d = static_id -> d_id1 d <> [] -> fx_write d1 = fx_write d.
+  Proof.
+    intros Hid2 Hid1. unfold fx_write, write_doc. cbv zeta.
+    rewrite g12_written. fold Wd.
+    change (fun x => match renumber (graph_of d1) (roots_of d1) x with Some n => n | None => 0 end) with ren1.
+    change (fun x => match renumber (graph_of d) (roots_of d) x with Some n => n | None => 0 end) with rho.
+    change (d_objects d1) with objs1. change (d_version d1) with (d_version d). fold objs.
+    rewrite (g12_bodies Wd _ [] [] (fun id H => H)).
+    destruct (emit_bodies US UN objs rho Wd (N.of_nat (length (header (d_version d)))) [] []) as [[chunks ofs] pos].
+    rewrite map_length.
+    change (d_trailer d1) with (flat_map (fx_norm_entry d) (d_trailer d)).
+    rewrite (g12_trailer (d_trailer d) (fun kv H => H)).
+    change (d_id2 d1) with static_id. rewrite <- Hid2.
+    change (d_id1 d1) with (generate_id1 (d_id1 d) static_id).
+    assert (Hi1 : generate_id1 (d_id1 d) static_id = d_id1 d)
+      by (unfold generate_id1; destruct (d_id1 d); [exfalso; apply Hid1; reflexivity | reflexivity]).
+    rewrite Hi1. reflexivity.
+  Qed.
+End G12.
+
+(* generation 1 = generation 2 = generation 3 when the first document is itself in the static-id mode (second /ID string
+   the static one, first one not empty - what generateID produces): plain mode. *)
+Lemma gen1_eq_gen2_plain_lemma : forall d, wf_doc d -> fx_trimmed d ->
+  d_id2 d = static_id -> d_id1 d <> [] ->
+  N.of_nat (length (fx_write d)) < 10 ^ 10 ->
+  fx_gens d = (fx_write d, Some (fx_write d), Some (fx_write d)).
+Proof.
+  intros d W Ht Hid2 Hid1 Hlt.
+  pose proof (g12_write d W Ht Hid2 Hid1) as Heq.
+  assert (H2 : N.of_nat (length (fx_write (fx_norm d))) < 10 ^ 10) by (rewrite Heq; exact Hlt).
+  destruct (gen2_eq_gen3_plain_lemma d W Ht Hlt H2) as [g2 Hg]. unfold fx_gens in *.
+  assert (Hr : fx_regen (fx_write d) = Some (fx_write d)).
+  { unfold fx_regen. rewrite (fx_read_write_lemma d W Hlt), Heq. reflexivity. }
+  rewrite Hr in *. injection Hg as <- Hg3. rewrite Hr. reflexivity.
+Qed.
